@@ -626,7 +626,9 @@ def run_check(chk, tier, replay=None):
             kf_hit = {}
             for (c, mo, io), v in zip(diffs, verdicts):
                 hit = None
-                for k in known:
+                # a known finding excuses only an observation that the MODEL reproduces (model = code, the oracle rejects both):
+                # where the code has moved away from the model the difference is new, whatever the declaration looks like
+                for k in (known if mo == io else []):
                     if chk.known_match(k["matcher"], c, mo, io):
                         hit = k
                         break
